@@ -261,6 +261,20 @@ impl World {
             self.harness_error = Some(format!("task {id} did not end after release"));
             return;
         };
+        if rec.panicked {
+            // the panic hook reports the end of the closure before the pool thread has finished
+            // unwinding (dropping the closure's guards): settle until the task has left the set
+            // of running tasks, giving up after 2 s of real time — the verdict itself is the
+            // content of a later response, so it is the same on every replay
+            let t0 = std::time::Instant::now();
+            loop {
+                let still = self.app_data.currently_running.lock().map(|g| g.iter().any(|r| r.username == rec.username && r.adf_name == rec.adf_name && format!("{:?}", r.task) == rec.task)).unwrap_or(false);
+                if !still || t0.elapsed() > Duration::from_secs(2) {
+                    break;
+                }
+                std::thread::sleep(Duration::from_micros(100));
+            }
+        }
         let t = self.tasks.get_mut(&id).unwrap();
         t.released = true;
         t.ended = true;
